@@ -305,6 +305,31 @@ pub fn pct(fam: &str, kind: &str, b: &[u8]) -> Option<String> {
     }
 }
 
+/// `pctref FAM x..`: the octet view of every percent-encoded component of a whole reference,
+/// reached the way a caller reaches them (parts, authority parts, segment iteration).
+macro_rules! pctref_fam {
+    ($fname:ident, $Ref:ty, $conv:expr) => {
+        fn $fname(b: &[u8]) -> Option<String> {
+            let inp = ($conv)(b)?;
+            let Ok(v) = <$Ref>::new(inp) else { return Some("invalid".into()) };
+            let oct = |p: &pct_str::PctStr| guarded(|| hex(&p.bytes().collect::<Vec<u8>>()));
+            let p = v.parts();
+            let ap = p.authority.map(|a| a.parts());
+            let ui = match ap.as_ref().and_then(|a| a.user_info) { Some(u) => oct(u.as_pct_str()), None => "-".into() };
+            let host = match ap.as_ref() { Some(a) => oct(a.host.as_pct_str()), None => "-".into() };
+            let segs: Vec<String> = p.path.segments().map(|s| oct(s.as_pct_str())).collect();
+            let rsegs: Vec<String> = p.path.segments().rev().map(|s| oct(s.as_pct_str())).collect();
+            let q = match p.query { Some(q) => oct(q.as_pct_str()), None => "-".into() };
+            let f = match p.fragment { Some(f) => oct(f.as_pct_str()), None => "-".into() };
+            let mut rr = rsegs.clone();
+            rr.reverse();
+            Some(format!("ui={} host={} segs=[{}] rev={} query={} fragment={}", ui, host, segs.join(","), b01(rr == segs), q, f))
+        }
+    };
+}
+pctref_fam!(pctref_u, iref::UriRef, conv_u);
+pctref_fam!(pctref_i, iref::IriRef, conv_i);
+
 // ---------------------------------------------------------------------------
 // pointer provenance and allocation counting (C20)
 
@@ -331,12 +356,17 @@ macro_rules! ptr_fam {
             use iref::$md::{Authority, Path};
             let inp = ($conv)(b)?;
             // everything below runs with the allocation counter on
+            let mut acc: Option<(Option<&[u8]>, Option<&[u8]>, &[u8], Option<&[u8]>, Option<&[u8]>)> = None;
             ALLOCS.store(0, AO::Relaxed);
             COUNTING.store(true, AO::Relaxed);
             let parsed: Option<(Option<&[u8]>, Option<&Authority>, &Path, Option<&[u8]>, Option<&[u8]>, &[u8], &[u8])> = if full {
                 match $Ri::new(inp) {
                     Ok(v) => {
                         let p = v.parts();
+                        // the stand-alone accessors scan the text again, each on its own
+                        acc = Some((Some(v.scheme().as_bytes()), v.authority().map(|x| x.as_bytes()),
+                                    v.path().as_bytes(), v.query().map(|x| x.as_bytes()),
+                                    v.fragment().map(|x| x.as_bytes())));
                         Some((Some(p.scheme.as_bytes()), p.authority, p.path, p.query.map(|x| x.as_bytes()),
                               p.fragment.map(|x| x.as_bytes()), v.as_bytes(), v.base().as_bytes()))
                     }
@@ -346,6 +376,9 @@ macro_rules! ptr_fam {
                 match $Ref::new(inp) {
                     Ok(v) => {
                         let p = v.parts();
+                        acc = Some((v.scheme().map(|x| x.as_bytes()), v.authority().map(|x| x.as_bytes()),
+                                    v.path().as_bytes(), v.query().map(|x| x.as_bytes()),
+                                    v.fragment().map(|x| x.as_bytes())));
                         Some((p.scheme.map(|x| x.as_bytes()), p.authority, p.path, p.query.map(|x| x.as_bytes()),
                               p.fragment.map(|x| x.as_bytes()), v.as_bytes(), v.base().as_bytes()))
                     }
@@ -386,11 +419,17 @@ macro_rules! ptr_fam {
             }
             COUNTING.store(false, AO::Relaxed);
             let allocs = ALLOCS.load(AO::Relaxed);
+            let acc = match acc {
+                Some((s, a, p, q, f)) => format!(
+                    "ascheme={} aauthority={} apath={} aquery={} afragment={}",
+                    oloc(b, s), oloc(b, a), loc(b, p), oloc(b, q), oloc(b, f)),
+                None => String::new(),
+            };
             Some(format!(
-                "whole={} scheme={} authority={} path={} query={} fragment={} userinfo={} host={} port={} first={} last={} fn={} dir={} par={} poe={} base={} nseg={} segs_inside={} allocs={}",
+                "whole={} scheme={} authority={} path={} query={} fragment={} userinfo={} host={} port={} first={} last={} fn={} dir={} par={} poe={} base={} nseg={} segs_inside={} allocs={} {}",
                 loc(b, whole), oloc(b, s), oloc(b, a.map(|x| x.as_bytes())), loc(b, p.as_bytes()), oloc(b, q), oloc(b, f),
                 oloc(b, ui), oloc(b, host), oloc(b, port), oloc(b, first), oloc(b, last), oloc(b, fname),
-                loc(b, dir), oloc(b, par), loc(b, poe), loc(b, base), nseg, b01(seg_inside), allocs
+                loc(b, dir), oloc(b, par), loc(b, poe), loc(b, base), nseg, b01(seg_inside), allocs, acc
             ))
         }
     };
@@ -413,6 +452,11 @@ pub fn dispatch(t: &[&str]) -> Option<String> {
         "views" => views(t.get(1)?, &unhex(t.get(2)?)?),
         "dataurl" => dataurl(&unhex(t.get(1)?)?),
         "pct" => pct(t.get(1)?, t.get(2)?, &unhex(t.get(3)?)?),
+        "pctref" => match *t.get(1)? {
+            "u" => pctref_u(&unhex(t.get(2)?)?),
+            "i" => pctref_i(&unhex(t.get(2)?)?),
+            _ => None,
+        },
         "ptrbig" => {
             // inputs far larger than any inline buffer: only the summary is printed (the Lean
             // model is list-based and is not asked to re-derive megabyte-sized offsets)
